@@ -4,6 +4,7 @@ Gen.Fourier: textual edits are applied to a scratch worktree of the sigpy reposi
   `change` edits alter behaviour (or leave the accepted subset): the text must differ or the generator must raise.
 
   git -C /repo worktree add --detach /tmp/wt HEAD;  python -m harness.translate.selftest_c09norm /tmp/wt [case-prefix ..]
+  python -m harness.translate.selftest_c09norm /tmp/wt --apply H1 H5 ..   leaves those edits applied (then SIGPY_REPO=/tmp/wt ./check C09)
 Not part of ./check (it edits a worktree); exit status = number of wrong outcomes.
 """
 import os, subprocess, sys
@@ -29,7 +30,9 @@ def edit(rel, pairs):
 def gen(names):
     res = {}
     for n in names:
-        o = open(os.path.join(ROOT, "lean", "SigpyVerif", "Gen", "%s.lean" % n)).read()
+        # the COMMITTED text (the file on disk may have been regenerated from another tree by a concurrent check)
+        o = subprocess.run(["git", "-C", ROOT, "show", "HEAD:lean/SigpyVerif/Gen/%s.lean" % n], stdout=subprocess.PIPE,
+                           text=True, check=True).stdout
         try:
             t = G.GENERATORS[n]()
             res[n] = "IDENTICAL" if t == o else "DIFF"
@@ -84,7 +87,9 @@ CASES = [
  ("H15 resize keyword call", "same", ["Fourier"], "sigpy/fourier.py", [("tmp = util.resize(input, oshape)", "tmp = util.resize(input, oshape=oshape)", 0)]),
  ("H16 Downsample length re-associated", "same", ["LinopFormulas"], "sigpy/linop.py", [("((i - s + f - 1) // f) for i, f, s in zip(ishape, factors, shift)", "((f + i - 1 - s) // f) for i, f, s in zip(ishape, factors, shift)", 0)]),
  ("H17 num_blks helper in linop.py (clashing local D)", "same", ["LinopFormulas"], "sigpy/linop.py", [("class ArrayToBlocks(Linop):", "def _get_num_blks(shape, blk_shape, blk_strides):\n    D = len(blk_shape)\n    return [(i - b + s) // s for i, b, s in zip(shape[-D:], blk_shape, blk_strides)]\n\n\nclass ArrayToBlocks(Linop):", 1), ("        num_blks = [\n            (i - b + s) // s\n            for i, b, s in zip(ishape[-D:], blk_shape, blk_strides)\n        ]", "        num_blks = _get_num_blks(ishape, blk_shape, blk_strides)", 1)]),
+ ("H18 commuted max arguments", "same", ["UtilFormulas"], "sigpy/util.py", [(ISH, "ishift = [max(0, i // 2 - o // 2) for i, o in zip(ishape1, oshape1)]", 0), ("min(i - si, o - so)", "min(o - so, i - si)", 0)]),
  # breaking
+ ("B23 max replaced by min", "change", ["UtilFormulas"], "sigpy/util.py", [(ISH, "ishift = [min(0, i // 2 - o // 2) for i, o in zip(ishape1, oshape1)]", 0)]),
  ("B21 num_blks helper called with the strides as block shape", "change", ["LinopFormulas"], "sigpy/linop.py", [("class ArrayToBlocks(Linop):", "def _get_num_blks(shape, blk_shape, blk_strides):\n    D = len(blk_shape)\n    return [(i - b + s) // s for i, b, s in zip(shape[-D:], blk_shape, blk_strides)]\n\n\nclass ArrayToBlocks(Linop):", 1), ("        num_blks = [\n            (i - b + s) // s\n            for i, b, s in zip(ishape[-D:], blk_shape, blk_strides)\n        ]", "        num_blks = _get_num_blks(ishape, blk_strides, blk_shape)", 1)]),
  ("B22 Downsample rounding", "change", ["LinopFormulas"], "sigpy/linop.py", [("((i - s + f - 1) // f) for i, f, s in zip(ishape, factors, shift)", "((i - s + f) // f) for i, f, s in zip(ishape, factors, shift)", 0)]),
  ("B1 sign of the offset", "change", ["Block"], "sigpy/block.py", [("ix = nx * Sx + bx", "ix = nx * Sx - bx", 1)]),
@@ -114,6 +119,13 @@ CASES = [
 ]
 bad = 0
 sel = sys.argv[2:]
+if sel and sel[0] == "--apply":   # leave the named edits applied in the worktree (to run ./check on them)
+    reset()
+    for cid, expect, gens, rel, pairs in CASES:
+        if any(cid.split()[0] == x for x in sel[1:]):
+            edit(rel, pairs)
+            print("applied", cid)
+    sys.exit(0)
 for cid, expect, gens, rel, pairs in CASES:
     if sel and not any(cid.startswith(x) for x in sel):
         continue
